@@ -101,6 +101,7 @@ var nets = []struct {
 	IP   string
 	Bits int
 }{{"10.1.1.0", 24}, {"10.1.2.0", 24}, {"10.1.0.0", 16}, {"10.0.0.0", 8}, {"10.2.0.0", 24}, {"192.168.1.0", 24}, {"10.1.0.0", 24}, {"10.0.0.0", 16}}
+
 // RouteProbes are the addresses whose route coverage is watched (C14).
 func RouteProbes() []netip.Addr {
 	var l []netip.Addr
@@ -192,16 +193,16 @@ func (e GACE) key() string {
 }
 
 type Knobs struct {
-	Kind       string
-	MaxIfaces  int
-	MaxLines   int
-	MaxGroups  int
-	MaxRoutes  int
-	MaxEdits   int
-	Clutter    bool // unmanaged content on the device
-	Remarks    bool
-	LogVariety bool
-	LongACL    bool
+	Kind        string
+	MaxIfaces   int
+	MaxLines    int
+	MaxGroups   int
+	MaxRoutes   int
+	MaxEdits    int
+	Clutter     bool // unmanaged content on the device
+	Remarks     bool
+	LogVariety  bool
+	LongACL     bool
 	Independent bool // draw A independently of B
 	Shaped      bool // Netspoc-shaped ACLs: deny block, permits, final deny; edits keep the shape
 	NoShare     bool // never bind one ACL twice on the device
@@ -660,8 +661,13 @@ func DeriveDevice(t *tape.Tape, k Knobs, b *GConf) (*GConf, []string) {
 			case 6: // flip action
 				j := t.Next(len(acl.Lines))
 				if acl.Lines[j].Remark == "" {
-					acl.Lines[j].Permit = !acl.Lines[j].Permit
-					ops = append(ops, fmt.Sprintf("flip line %d of %s", j, acl.Name))
+					e := acl.Lines[j]
+					e.Permit = !e.Permit
+					// A device cannot hold two entries that differ only in the log option.
+					if !hasDup(acl.Lines, e, j) {
+						acl.Lines[j] = e
+						ops = append(ops, fmt.Sprintf("flip line %d of %s", j, acl.Name))
+					}
 				}
 			}
 		case op == 7 && len(a.Groups) > 0: // group member add / remove
